@@ -107,6 +107,9 @@ inductive PenOp
   | copyAttr (t : Tmpl)
   /-- `tickit_pen_set_colour_attr_desc(pen, TICKIT_PEN_FG, "n")` or `"n#rrggbb"` -/
   | desc (n : Int) (rgb : Option Nat)
+  /-- a colour description `tickit_pen_set_colour_attr_desc` rejects (`"hi-<n>"` with `n > 7`, an unknown name): it returns
+      false before anything is frozen or set -/
+  | rejected
   deriving DecidableEq, Repr
 
 /-- is the whole operation one freeze..thaw region? -/
@@ -122,6 +125,7 @@ def PenOp.body : PenOp → List PenStep
   | .copy t ow => [.loopFg t ow, .loopBold t ow]
   | .copyAttr t => [.copyAttrFg t]
   | .desc n rgb => [.setCol n] ++ (match rgb with | some r => [.setRgb r] | none => [])
+  | .rejected => []
 
 /-- inside the region of `tickit_pen_copy_attr` for the colour (the source is read first): set the index, then the
     RGB8 if the source has one -/
@@ -569,5 +573,9 @@ end
 /-- Owners used by the harness. -/
 def Owner.pen : Owner := ⟨fun _ => false, fun ev => ev = 1, false, some 7⟩
 def Owner.term : Owner := ⟨fun ev => decide (ev ≥ 2), fun ev => decide (1 ≤ ev ∧ ev ≤ 3), false, none⟩
+/-- a window (`DEFINE_BINDINGS_FUNCS(window,…)` in `src/window.c`): GEOMCHANGE (1), EXPOSE (2) and FOCUS (3) are delivered by
+    `run_events`, KEY (4) and MOUSE (5) by `run_events_whilefalse` (`_handle_key` / `_handle_mouse`, which hold a reference of
+    their own on the window around the walk) -/
+def Owner.win : Owner := ⟨fun ev => decide (ev ≥ 4), fun ev => decide (1 ≤ ev ∧ ev ≤ 5), false, none⟩
 
 end Tickit.Bindings
